@@ -527,6 +527,10 @@ class GenSource:
         in use.  The holder's own layout does not change, so none of its handles may go stale."""
         rng = self.rng
         sc = w.schema
+        if self.sw.get("hybrid"):
+            # (in hybrid worlds a raw re-split under a dressed object goes behind the dressing layer's
+            # back; HybridSim has its own scenario that goes through the dressed API)
+            return None
         cands = []
         for o in w.live_objs():
             if sc[o.t]["k"] not in ("struct", "array"):
